@@ -31,10 +31,10 @@ func (c17) Runs(tier string) int {
 }
 func (c17) Describe() core.Description {
 	return core.Description{
-		Level: "exploration",
-		Rule:  "per run: drawn ring (LogN 4-8, 1-4 moduli of unequal size), drawn distribution (uniform / Gaussian with sigma 0.5..2^70 and bound/sigma 0.5..8 incl. the big-number path / ternary with P in {0.5, 2/3, drawn} or H in 1..N), Montgomery flag, 32-byte key; history of 4-50 calls drawn from {Read, ReadNew, ReadAndAdd on the base sampler or on any level view, create view AtLevel(l), ringqp sampler calls}, executed on the system sampler and on a twin with the same key; then reset-and-replay, different-key divergence, compressed-key expansion twin. Non-trivial = history with >= 2 level views interleaved or >= 1 ReadAndAdd; distinct = distinct choice traces",
-		Real:  []string{"ring.UniformSampler/GaussianSampler/TernarySampler and their AtLevel views", "ringqp.UniformSampler (+AtLevel, WithPRNG)", "sampling.KeyedPRNG (BLAKE2b XOF) incl. Reset", "rlwe.EvaluationKey.Expand / compressed key generation", "ring.Ring.PolyToBigintCentered, IMForm (substrate for the oracles)"},
-		Stub:  []string{"entropy source for keys (deterministic crypto/rand.Reader)", "recording wrapper around the keyed source (counts bytes and calls)"},
+		Level:  "exploration",
+		Rule:   "per run: drawn ring (LogN 4-8, 1-4 moduli of unequal size), drawn distribution (uniform / Gaussian with sigma 0.5..2^70 and bound/sigma 0.5..8 incl. the big-number path / ternary with P in {0.5, 2/3, drawn} or H in 1..N), Montgomery flag, 32-byte key; history of 4-50 calls drawn from {Read, ReadNew, ReadAndAdd on the base sampler or on any level view, create view AtLevel(l), ringqp sampler calls}, executed on the system sampler and on a twin with the same key; then reset-and-replay, different-key divergence, compressed-key expansion twin. Non-trivial = history with >= 2 level views interleaved or >= 1 ReadAndAdd; distinct = distinct choice traces",
+		Real:   []string{"ring.UniformSampler/GaussianSampler/TernarySampler and their AtLevel views", "ringqp.UniformSampler (+AtLevel, WithPRNG)", "sampling.KeyedPRNG (BLAKE2b XOF) incl. Reset", "rlwe.EvaluationKey.Expand / compressed key generation", "ring.Ring.PolyToBigintCentered, IMForm (substrate for the oracles)"},
+		Stub:   []string{"entropy source for keys (deterministic crypto/rand.Reader)", "recording wrapper around the keyed source (counts bytes and calls)"},
 		Assume: []string{"no fault is injected: a sampling.PRNG that short-reads or fails is outside the documented contract", "statistical bands are at least 8 standard errors wide and only evaluated on >= 2000 coefficients"},
 	}
 }
@@ -123,11 +123,11 @@ type c17Step struct {
 var c17OpNames = []string{"Read", "ReadNew", "ReadAndAdd", "AtLevel"}
 
 type c17Stats struct {
-	n                   float64
-	sum, sumsq          float64
-	nonzero, pos        float64
-	unifSum             float64
-	unifN               float64
+	n            float64
+	sum, sumsq   float64
+	nonzero, pos float64
+	unifSum      float64
+	unifN        float64
 }
 
 func (p c17) Run(ctx *core.RunCtx) {
